@@ -222,7 +222,7 @@ pub(crate) fn check_match_expression_usefulness(
 
     let factory = ConstructorFactory::new(engines, type_id);
     for scrutinee in scrutinees.into_iter() {
-        let pat = Pattern::from_scrutinee(scrutinee.clone());
+        let pat = Pattern::from_scrutinee(engines.de(), scrutinee.clone());
         let v = PatStack::from_pattern(pat);
         let witness_report = is_useful(handler, engines, &factory, &matrix, &v, &span)?;
         matrix.push(v);
